@@ -170,6 +170,9 @@ func (t *Collection) ExistAny(key interface{}) bool {
 // Exist returns true if the key exists in the collection
 func (t *Collection) Exist(key []byte) bool {
 	val, _ := t.GetItem(key, false)
+	if val != nil {
+		t.store.ItemDecRef(t, val) // Exist hands nothing out, so keep no reference.
+	}
 	return val != nil
 }
 
